@@ -38,7 +38,8 @@ def n_runs(tier):
 
 
 def _small_world(rng, backends):
-    return world.gen_world_plan(rng, backends=backends, max_images=2, max_lines=10, max_pixels=6)
+    return world.gen_world_plan(rng, backends=backends, max_images=2, max_lines=10, max_pixels=6,
+                                large=0.0)
 
 
 def generate(rng, tier, index):
@@ -46,7 +47,7 @@ def generate(rng, tier, index):
         level = "1.1" if index < SHARDS else "1.5"
         wr = random.Random("c09-exhaustive-" + level)
         wp = world.gen_world_plan(wr, backends=("local",), max_images=1, max_lines=3,
-                                  max_pixels=3, level=level)
+                                  max_pixels=3, level=level, large=0.0)
         wp["images"] = wp["images"][:1]
         wp["images"][0].update(lines=3, pixels=2)
         return {"scenario": "S0", "world": wp, "location": ["user", "adjacent"][index % 2],
@@ -453,8 +454,10 @@ def run_s4(c, ref):
         return
     for nm in names:
         if nm in s.err:
-            c.bad("writer-raised-without-fault", f"S4:{type(s.err[nm]).__name__}",
-                  error=exc_text(s.err[nm]), actor=nm)
+            # the property speaks about the opens that follow, not about the fate of a creating
+            # call that races with another writer (e.g. a shared temp name that the other writer
+            # already renamed): counted, not judged - the sequential repair below is judged
+            c.bump("concurrent-writer-raised:" + type(s.err[nm]).__name__)
     for nm, e in s.err.items():
         if nm.startswith("R"):
             raise e
